@@ -106,7 +106,9 @@ impl Check for C16 {
             }
             let cp = others[0];
             let want_default = if row.amount.signum() > 0 { "Income:Unknown" } else { "Expenses:Unknown" };
-            if cp.account != want_default {
+            // (a record that moves nothing has no direction: either default account is accepted)
+            let zero_ok = row.amount.is_zero() && (cp.account == "Income:Unknown" || cp.account == "Expenses:Unknown");
+            if cp.account != want_default && !zero_ok {
                 rec.violation("counter-account-differs", &class, &rw(&format!("counter account {} (no rule assigns one; expected {})", cp.account, want_default)), wit(json!({"output": imp.text})));
                 return;
             }
